@@ -69,10 +69,11 @@ CMD_POSITIONS = [
     "f() { @; }; f", "function g { @; }; g", "coproc @", "echo $(@)", "echo `@`", "cat <(@)", "echo hi > >(@)", "echo ${x:-$(@)}", "echo \"${x:-$(@)}\"", "[[ -n $(@) ]]", "(( $(@) ))",
     "echo $(( $(@) + 1 ))", "cat <<EOF\n$(@)\nEOF", "echo hi > $(@)", "a[$(@)]=1", "for i in $(@); do :; done", "case $(@) in x) ;; esac",
     "nohup @", "timeout 5 @", "timeout -s KILL 30s @", "nice -n 5 @", "command @", "command -- @", "env @", "env A=1 @", "env -u X @", "env -vu X @", "ls | xargs @", "ls | xargs -n1 @", "ls | xargs -rE EOF @",
-    "sh -c '@'", "bash -lc '@'", "env -S '@'", "find . -maxdepth 0 -exec @ \\;", "find . -exec @ {} +", "strace @", "nohup nice timeout 5 @", "time nohup @",
+    "sh -c '@'", "bash -lc '@'", "env -S '@'", "find . -maxdepth 0 -exec @ \\;", "find . -exec @ {} +", "strace @", "nohup nice timeout 5 @", "time nohup @", "strace -f @", "strace -x @", "strace -e trace=open @", "ltrace -S @", "ltrace -b @", "ltrace -n 2 @", "nohup ltrace -A 3 @", "strace -y -D @",
+    "nice -n 5 -- @", "timeout --preserve-status -k 3 5 @", "command -p @",
 ]
 UNKNOWN_NAMES = ["zz_unknown_tool", "\"zz_unknown_tool\"", "zz_unknown\\_tool", "'zz_unknown_tool'", "./zz_unknown_tool", "/opt/zz/bin/tool", "zz-tool.sh", "7zq", "ZZ_TOOL", "ls_", "git2", "rmm", "~/bin/zz", "zz\"_\"tool"]
-UNKNOWN_ARGS = [["--force"], [], ["x", "y"], ["-rf", "x"], ["run", "--prod"]]
+UNKNOWN_ARGS = [["--force"], [], ["x", "y"], ["-rf", "x"], ["run", "--prod"], ["ls"], ["cat", "f"], ["echo", "hi"]]
 
 
 def unknown_matrix():
